@@ -232,6 +232,17 @@ def run(cx):
         for n in walk_local(fn, include_self=False):
             if isinstance(n, ast.Assign) and isinstance(n.targets[0], ast.Subscript) and lit.try_ev(n.targets[0].slice) == "_promotion_cpp_types":
                 r.fail(f"{q}/promotion-cache-assigned", (pm, n), "the promotion cache is installed into a context explicitly (it must be created lazily per scope)")
+    # the hoisted C++ type is (re)computed from the label chosen *now*: label and cache entry are overwritten together
+    order_loops = [n for n in walk_local(pb) if isinstance(n, ast.For) and norm(n.iter) == "order" and pm.enclosing_func(n) is pb]
+    okw = False
+    if order_loops:
+        lp = order_loops[-1]
+        lab = [n for n in lp.body if isinstance(n, ast.Assign) and norm(n.targets[0]) == "parent_types[name]"]
+        cache = [n for n in lp.body if isinstance(n, ast.Assign) and isinstance(n.targets[0], ast.Subscript) and norm(n.targets[0].slice) == "name" and isinstance(n.value, ast.Call) and call_name(n.value) == "_cpp_type"]
+        okw = len(lab) == 1 and len(cache) == 1 and norm(cache[0].value.args[0]) == norm(lab[0].value)
+        lazy = [n for n in walk_local(lp) if isinstance(n, ast.Call) and isinstance(n.func, ast.Attribute) and n.func.attr in ("setdefault", "get") and any(isinstance(a, ast.Call) and call_name(a) == "_cpp_type" for a in n.args)]
+        okw = okw and not lazy
+    r.check(okw, "_promote_branch_decls/cache-overwritten-with-current-label", (pm, pb), "for every hoisted name the scope's label (parent_types[name]) and the cached C++ type must be overwritten together from the same label; a kept/conditional cache entry (setdefault) leaves the type of an earlier hoist of the same name - `float pick(float, float)` would declare `int best`")
     # parameter specialisation
     pfn = pm.func("_parse_function")
     assigns = [n for n in walk_local(pfn) if isinstance(n, ast.Assign) and norm(n.targets[0]) == "param_type_label"]
@@ -261,3 +272,45 @@ def run(cx):
     txt = norm(rec)
     merges = "inferred[name] =" in txt and ("_merge" in txt or "join" in txt or "float" in txt)
     r.check(merges, "_promote_branch_decls/first-branch-type-wins", (pm, rec), "a name assigned in several branches is hoisted with the label of the first branch only: `if c: y = 1` / `else: y = 1.5` declares `int y`")
+
+
+    # ---- C02-EMIT ----------------------------------------------------------------------------
+    from .. import pe, cxx
+    from . import c09
+    em = mod("transpile/emitter.py")
+    cx.consulted(em)
+    cls, _f = pe.ir_classes()
+    r = cx.rule("C02-EMIT", "the emitter writes the types the parser decided: every function overload is emitted (once) with its own parameter and return types, every declaration with its c_type; the list helper converts elements to the element type only", floor=12)
+    S = cls["ReturnStmt"]
+    fd = cls["FunctionDef"]
+    fns_ = [fd(name="scale", params=[("v", "int")], body=[S(expr="(v * 2)")], return_type="int"),
+            fd(name="scale", params=[("v", "float")], body=[S(expr="(v * 2)")], return_type="float"),
+            fd(name="scale", params=[("v", "String")], body=[S(expr="v")], return_type="String"),
+            fd(name="pick", params=[("a", "float"), ("b", "int")], body=[S(expr="a")], return_type="float"),
+            fd(name="pick", params=[("a", "int"), ("b", "float")], body=[S(expr="b")], return_type="float")]
+    res = pe.emit_program(setup=[cls["ExprStmt"](expr="scale(1)")], functions=fns_)
+    if res.raised:
+        raise AnalysisError(f"emit() raises {res.raised} for overloaded helpers")
+    for f_ in fns_:
+        hdr = f"{f_.return_type} {f_.name}(" + ", ".join(f"{t} {n}" for n, t in f_.params) + ")"
+        cnt = res.text.count(hdr + " {")
+        r.check(cnt == 1, f"emit/overload[{hdr}]-emitted-once", (em, em.func("emit")), f"`{hdr}` is defined {cnt} time(s): a call with these argument types would bind to another overload and convert its arguments")
+    for ct in ("int", "float", "bool", "String", "__redu_list<float>"):
+        for place, kw in (("global", {"global_decls": [cls["VarDecl"](name="v", c_type=ct, expr="{}", global_scope=True)]}), ("setup", {"setup": [cls["VarDecl"](name="v", c_type=ct, expr="{}", global_scope=False)]}),
+                          ("function", {"setup": [cls["ExprStmt"](expr="f()")], "functions": [fd(name="f", params=[], body=[cls["VarDecl"](name="v", c_type=ct, expr="{}", global_scope=False)], return_type="void")]})):
+            res = pe.emit_program(**kw)
+            r.check(not res.raised and f"{ct} v = {{}};" in (res.text or ""), f"emit/VarDecl[{ct}]@{place}", (em, em.func("_emit_block")), f"a {place} declaration with c_type {ct} is not emitted as `{ct} v = ...`")
+    hf, _sn, _names = c09.list_helpers(em)
+    gen = [f_ for f_ in hf.get("__redu_make_list", []) if any(t == "First" for _n, t in f_.get("params", []))]
+    if not gen:
+        raise AnalysisError("variadic __redu_make_list<T, First, Rest...> not found")
+    for f_ in gen:
+        bad = []
+        for st in cxx.all_stmts(f_["body"]):
+            if st["k"] == "decl" and st.get("type") and any(tp in st["type"] for tp in ("First", "Rest")):
+                bad.append(f"{st['type']} {st['name']}")
+            for e in cxx.stmt_exprs(st):
+                for s_ in cxx.sub_exprs(e):
+                    if s_[0] == "cast" and (s_[1] or "") not in ("T", "const T", "T &&", "const T &", "size_t", "unsigned long", "int"):
+                        bad.append(f"cast to {s_[1]}")
+        r.check(not bad, "make_list/elements-converted-to-T-only", (em.rel, em.const("LIST_HELPER_SNIPPET").lineno), f"list elements pass through {bad}: a later element wider than the first (`[1, 2.5]`) is narrowed before it reaches the list")
